@@ -75,11 +75,52 @@ def reader_hook(d, nth=0, extra=None):
     return hook
 
 
-def make_sim(crates, d, nth=0, extra=None, more_inline=(), opaque=None, max_depth=6):
-    inl = set(WRAPPERS) | set(more_inline)
+_LIGHT = {}
+
+
+def light_fns(crate):
+    """Decision helpers of the parse module: local functions of parse/mod.rs, parse/read.rs without any
+    loop and without a direct self-call.  They only dispatch on values already read (the scanners, which
+    loop over the input, stay opaque), so abstract evaluation looks through them.  This makes the token-level
+    rules independent of how the dispatch is split into helper functions."""
+    key = id(crate)
+    if key not in _LIGHT:
+        from . import cfg
+        out = set()
+        for f in crate.fns:
+            if f.kind == "closure" or not (f.file.endswith("parse/mod.rs") or f.file.endswith("parse/read.rs")):
+                continue
+            if (f.self_ty or "").startswith("parse::read::") and f.impl_trait:
+                continue       # reader implementations are modelled by the reader hooks
+            if cfg.back_edges(f):
+                continue
+            if any(f.path in F.callee_names(t) or t["callee"].get("resolved") == f.path for _, t in f.calls()):
+                continue
+            out.add(f.path)
+        _LIGHT[key] = out
+    return _LIGHT[key]
+
+
+def helper_inline(crate, named=()):
+    """Inline policy: the named wrappers plus every loop-free local helper of the parse module and every
+    local byte predicate `fn(u8) -> bool`."""
+    named = set(WRAPPERS) | set(named)
+    light = light_fns(crate)
+
+    def inline(a, b):
+        return b.path in named or b.path in light or (
+            b.crate == crate.name and b.arg_count == 1 and b.local_ty(1) == "u8" and b.local_ty(0) == "bool")
+    return inline
+
+
+def make_sim(crates, d, nth=0, extra=None, more_inline=(), opaque=None, max_depth=6, light=False):
     hooks = {"call": reader_hook(d, nth, extra)}
     if opaque:
         hooks["opaque"] = opaque
+    if light:
+        return sim.Sim(crates, hooks=hooks, inline=helper_inline(crates[0], more_inline), max_depth=max_depth)
+    inl = set(WRAPPERS) | set(more_inline)
+
     def inline(a, b):
         # named wrappers, plus any local byte predicate `fn(u8) -> bool` (is_delimiter and friends)
         return b.path in inl or (b.arg_count == 1 and b.local_ty(1) == "u8" and b.local_ty(0) == "bool")
